@@ -180,8 +180,44 @@ Proof.
     rewrite encode16_wraps. discriminate.
 Qed.
 
+(* ---------- the end of the code is never reached (round 7) ----------
+   A verified function cannot run off the end of its code: every reachable pc lies strictly inside the code (the
+   instruction there decodes and ends inside it).  A function whose epilogue is missing is therefore REJECTED -
+   whatever its last byte is: the last BYTE of a chunk says nothing about its last INSTRUCTION. *)
+Theorem never_runs_off_the_end : forall b p f a, check_fn b p f a = true ->
+  forall s, reachable b p f s -> pc s < code_len f.
+Proof.
+  intros b p f a Hc s Hr.
+  destruct (decode_in_bounds b p f a Hc s Hr) as [i [nx [_ [H1 H2]]]]. lia.
+Qed.
+
+(* 57 x Nil, BuildVec 57 (a local initialised with a 57-element literal as the last statement of a function), with
+   and without the implicit `Nil; Return`: both byte strings end in 57 = OpCode::Return *)
+Definition fn_vec57_with_epilogue : fn := mkFn (repeat 1 57 ++ [40; 57] ++ [1; 57]) [] 1 0.
+Definition fn_vec57_without_epilogue : fn := mkFn (repeat 1 57 ++ [40; 57]) [] 1 0.
+Theorem last_byte_is_not_last_instruction :
+  (last (code fn_vec57_with_epilogue) 0 = N_of_opcode OpReturn) /\
+  (last (code fn_vec57_without_epilogue) 0 = N_of_opcode OpReturn) /\
+  (exists a, verify_fn false [fn_vec57_with_epilogue] fn_vec57_with_epilogue = FOk a) /\
+  (exists q r, verify_fn false [fn_vec57_without_epilogue] fn_vec57_without_epilogue = FReject q r) /\
+  (decode [fn_vec57_without_epilogue] fn_vec57_without_epilogue 57
+   = Some (mkInstr OpBuildVec 57 0 [], code_len fn_vec57_without_epilogue)).
+Proof.
+  split; [reflexivity|]. split; [reflexivity|]. split.
+  - destruct (verify_fn false [fn_vec57_with_epilogue] fn_vec57_with_epilogue) eqn:E.
+    + eexists; reflexivity.
+    + vm_compute in E. discriminate.
+  - split.
+    + destruct (verify_fn false [fn_vec57_without_epilogue] fn_vec57_without_epilogue) eqn:E.
+      * vm_compute in E. discriminate.
+      * eexists; eexists; reflexivity.
+    + vm_compute. reflexivity.
+Qed.
+
 Print Assumptions run_ok_sound.
 Print Assumptions run_ok_program_sound.
 Print Assumptions decode_operand_widths.
 Print Assumptions operand_fits_of_not_stuck.
 Print Assumptions jump_limit_decide.
+Print Assumptions never_runs_off_the_end.
+Print Assumptions last_byte_is_not_last_instruction.
